@@ -624,7 +624,7 @@ def doctype_rule(ctx):
                 if isinstance(v, ast.BinOp) and isinstance(v.op, ast.Mod) and ("token['%s']" % ident) in norm(v.right):
                     sites.append((n, v))
         if not sites:
-            raise AnalysisError("serialize: interpolation of %s not found" % ident)
+            continue            # written differently: the evaluated instances (doctype-ids-read-back, doctype-publicId-quote) decide
         for n, v in sites:
             fmt = ctx.ce.try_eval(v.left, f.module)
             # literal quote in the format, or a quote variable chosen by tests
@@ -652,10 +652,11 @@ def doctype_evaluated(ctx):
     if arm is None:
         r.idiom("S8", False, "doctype-ids-read-back", f.where, "serialize: the arm for doctype tokens was not found")
         return
+    pub_dq = []
     for qc in ('"', "'"):
         bad = []
         undecided = None
-        for pub in ("", "pub", "p'ub"):
+        for pub in ("", "pub", "p'ub", 'p"ub'):
             for sysid in ("", "sys", 's"ys', "s'ys", "s\"y's"):
                 out, errs = [], []
 
@@ -685,7 +686,10 @@ def doctype_evaluated(ctx):
                 m = _re.match(r"<!DOCTYPE html(?: PUBLIC (['\"])((?:(?!\1).)*)\1)?(?: SYSTEM)?(?: (['\"])((?:(?!\3).)*)\3)?>$", text, _re.S)
                 got = (m.group(2) or "", m.group(4) or "") if m else None
                 if got != (pub, sysid) and not errs:
-                    bad.append((pub, sysid, text))
+                    if '"' in pub:
+                        pub_dq.append((qc, pub, sysid, text))      # reported once, under the key of the known finding
+                    else:
+                        bad.append((pub, sysid, text))
             if undecided:
                 break
         key = "doctype-ids-read-back[quote_char=%s]" % qc
@@ -695,6 +699,11 @@ def doctype_evaluated(ctx):
         r.check("S8", not bad, key, "%s:%d" % (REL, arm.lineno),
                 "with quote_char=%r the doctype (public %r, system %r) is written as %s, which does not read back as these identifiers, and no "
                 "error is reported (%d such cells)" % ((qc,) + (bad[0] if bad else ("", "", "")) + (len(bad),)), detail={"cells_wrong": len(bad)})
+
+
+    r.check("S8", not pub_dq, "doctype-publicId-quote", "%s:%d" % (REL, arm.lineno),
+            "publicId is written inside a literal double quote without being checked for that quote character: a quote in it ends the "
+            "identifier early and no error is reported (%s)" % (pub_dq[0][3] if pub_dq else ""), detail={"cells_wrong": len(pub_dq)})
 
 
 def comment_rule(ctx):
